@@ -492,12 +492,12 @@ func dumpKey(ob string) string {
 }
 
 type fsmStats struct {
-	States, Transitions, OkTransitions, BisimChecked, BisimDiffs int
-	Exhaustive                                                   bool
-	Hist                                                         map[string]int
-	Monitors                                                     []string
-	Samples                                                      []string
-	MonitorChecks                                                map[string]int
+	States, Transitions, OkTransitions, BisimChecked, BisimDiffs, LiveTwinSteps int
+	Exhaustive                                                                  bool
+	Hist                                                                        map[string]int
+	Monitors                                                                    []string
+	Samples                                                                     []string
+	MonitorChecks                                                               map[string]int
 }
 
 // exploreFSM: BFS to the fixpoint (or maxStates) for n participants and threshold t.
@@ -627,8 +627,26 @@ func guidedWalks(w *fsmWorld, rng *rand.Rand, walks int, st *fsmStats) {
 		n := 2 + rng.Intn(6)
 		t := 2 + rng.Intn(n-1)
 		idx := w.create(fmt.Sprintf("guided-%d", k))
+		// the same round, never restored: one instance kept in memory for the whole walk (C19: a round restored from its dump
+		// answers every event like the round that was never stopped - whatever the machine objects remember besides the dump)
+		live, _ := sm.Create(fmt.Sprintf("guided-%d", k))
 		step := func(ev string, args ...string) bool {
-			_, ok := w.do(idx, ev, args)
+			ob, ok := w.do(idx, ev, args)
+			if live != nil {
+				r, e, p := safeDo(live, ev, buildReq(args))
+				st.LiveTwinSteps++
+				obL := observe(live, r, e, p)
+				kind := func(o string) string { return strings.SplitN(o, " ", 2)[0] }
+				okL := r != nil && e == nil && !p
+				switch {
+				case okL != ok || kind(obL) != kind(ob) || (ok && obL != ob):
+					st.Monitors = append(st.Monitors, fmt.Sprintf("C19 restored_answers_alike: guided walk %d (n=%d t=%d), %s %s: the round kept in memory answers %s, the same round restored from its dump %s", k, n, t, ev, truncate(strings.Join(args, " "), 80), truncate(obL, 160), truncate(ob, 160)))
+					live = nil
+				}
+				// (after a refused event the object's own dump is not comparable - its state field is blanked until the next
+				// accepted event - but the object goes on: only the kind of answer is compared there, and everything again at
+				// the next accepted event)
+			}
 			st.Transitions++
 			if ok {
 				st.OkTransitions++
@@ -638,6 +656,14 @@ func guidedWalks(w *fsmWorld, rng *rand.Rand, walks int, st *fsmStats) {
 					return false
 				}
 				idx = ni
+				// an object kept in memory is bound to ONE of the three machines: where a round passes from one machine to the
+				// next (invitations collected -> key generation, master key collected -> signing) the node restores it from its
+				// dump "by hand" before going on; so does the twin. Everywhere else it stays the same object.
+				if live != nil {
+					if cur := dumpStateOf(w.store[idx]); cur == "state_sig_proposal_collected" || cur == "state_dkg_master_key_collected" {
+						live, _ = sm.FromDump(w.store[idx])
+					}
+				}
 			}
 			return ok
 		}
@@ -674,6 +700,9 @@ func guidedWalks(w *fsmWorld, rng *rand.Rand, walks int, st *fsmStats) {
 		step("event_signing_init", "default", T(6))
 		for b := 0; b < 3; b++ {
 			batch := fmt.Sprintf("B%d", b)
+			if b > 0 && rng.Intn(3) == 0 {
+				batch = fmt.Sprintf("B%d", b-1) // a batch id that was used before in this round
+			}
 			step("event_signing_start", "signStart", hs(batch), "0", T(7+int64(b)), "2", hs("m1"), hs("f1"), "x6d", "0", "0", hs("m2"), hs("f2"), "-", "0", "2")
 			for _, p := range perm() {
 				noise()
